@@ -19,7 +19,7 @@ RULE = ('each non-buffering step kind alone and seeded compositions of 3..8 of t
         '(descriptor, iterator) loads); every pipeline is run at N1=2000 and N2=20000 rows per source (thorough: '
         '+200000); distinct = (pipeline hash); non-trivial = >=1 delivery event at both sizes')
 ASSUMPTIONS = [
-    'buffering steps (sort_rows, join, duplicate, deduplicate, parallelize, dump_to_sql) are outside the statement',
+    'buffering steps (sort_rows, join, duplicate, deduplicate, parallelize) are outside the statement; dump_to_sql is judged on its own (fixed write batches)',
     'look-ahead may be any constant: judged is L(N2) <= L(N1) + 2*steps and L(N2) < N2/4, for the maximum over '
     'all deliveries and over deliveries of rows with ordinal >= 200 separately',
     'in multi-source pipelines source j+1 may be pulled up to its inference sample before source j is delivered',
@@ -72,6 +72,9 @@ def gen_cases(tier, seed):
     # load((descriptor, iterators), resources=<selector>): the rows of the resources that are not selected stay where they are
     for i in range(2):
         yield {'family': 'tuple_selector', 'op': 'load_tuple_selector', 'idx': 8500 + i, 'seed': seed}
+    # dump_to_sql writes in fixed batches: the rows read ahead of the delivered one are bounded by the batch, not by the stream
+    for i in range(2):
+        yield {'family': 'sql_dump_step', 'op': 'dump_to_sql', 'idx': 8580 + i, 'seed': seed}
     # sources(a, b): the second source is read when its turn comes, not while the first is streamed
     for i in range(2):
         yield {'family': 'sources_step', 'op': 'sources', 'idx': 8550 + i, 'seed': seed}
@@ -114,7 +117,7 @@ def run_case(case):
         return run_csv(case, rng, d, counters, cov, viol, sizes)
     if case['family'] == 'file_source_memory':
         return run_file_memory(case, rng, d, counters, cov, viol)
-    if case['family'] in ('limit_rows', 'observer_then_concatenate', 'tuple_selector', 'json_package', 'sources_step'):
+    if case['family'] in ('limit_rows', 'observer_then_concatenate', 'tuple_selector', 'json_package', 'sources_step', 'sql_dump_step'):
         return run_special(case, rng, d, counters, cov, viol, sizes)
     nsrc = rng.choice([1, 1, 2, 3]) if case['family'] == 'composition' else rng.choice([1, 2])
     tables = []
@@ -404,6 +407,10 @@ def run_special(case, rng, d, counters, cov, viol, sizes):
                         yield row
                 return sink_json
             steps = [d.load('jp_%d/datapackage.json' % N), mk_sink(N, size, stats, pulled)]
+        elif fam == 'sql_dump_step':
+            kw_ = {} if case['idx'] % 2 == 0 else {'batch_size': 50}
+            steps = [d.load(({'resources': [{'name': 'a', 'path': 'a.csv', 'schema': {'fields': copy.deepcopy(fl)}}]}, [g(0)]), strip=False),
+                     d.dump_to_sql({'t': {'resource-name': 'a'}}, engine='sqlite:///' + os.path.abspath('sq_%d.db' % N), **kw_), sink]
         elif fam == 'sources_step':
             def src_s(name, j):
                 return d.load(({'resources': [{'name': name, 'path': name + '.csv', 'schema': {'fields': copy.deepcopy(fl)}}]},
